@@ -7,6 +7,11 @@ streams (a real file object and a BytesIO) with `force_as`. (Here scipy is absen
 and force_as='wav' end in the stdlib `wave` reader; soundfile reads wav only under force_as='soundfile'.) The expected value is the array that was
 handed to the writer (cast with numpy's astype when `dtype` is given).
 
+SPHERE is written in nine valid framings (SPH_LAYOUTS): the minimal 1024-byte header and headers of 2048 / 3072 / 4096 bytes that
+are padded, that carry descriptive fields first so that every sample field lies in the 2nd / 3rd 1024-byte block, that spread
+the sample fields over all blocks with a line straddling each block boundary, or that end_head fills to the last byte. Each is
+a container variant of its own, so every clause below (path, stream, stream position, final cast, wds) ranges over them.
+
 Clauses
   C11.roundtrip_path     by name: bit-identical values, stored dtype, shape (time x channels for audio)
   C11.roundtrip_stream   same from an open stream with force_as
@@ -73,26 +78,125 @@ def make_array(sdtype: str, shape, rng_range: str, seed: int, salt: str) -> np.n
 # ----------------------------------------------------------------------------------------------
 # own SPHERE writer / reader (header layout as in the NIST files shipped with the repo's tests)
 # ----------------------------------------------------------------------------------------------
-def sph_bytes(arr: np.ndarray, order: str) -> bytes:
+# Statement: "For EVERY supported container (... NIST SPHERE) an array written with the container's own writer is read back
+# bit-identically ... both from a file name ... and from an open binary stream with force_as" and "wds_read_signal ...
+# returning None [only] for anything it cannot decode". A SPHERE header is NIST_1A, a line with the header's size (a multiple
+# of 1024), "name -type value" lines in ANY order, end_head, blank padding up to the declared size; descriptive fields
+# (database / speaker / session ...) may come before the ones that describe the samples. So a SPHERE writer's output is not
+# only the minimal 1024-byte header: SPH_LAYOUTS are valid framings of the same array.
+#   name -> (declared header size, layout)
+#   short   the six sample fields right after the size line, padding up to the size (1024: what a minimal writer gives;
+#           2048 / 4096: a larger, merely padded header)
+#   late    descriptive fields first, so that ALL sample fields and end_head lie in the LAST 1024-byte block of the header
+#   split   sample fields alternate with descriptive ones over the whole header: some in every block, one line straddling
+#           each 1024-byte boundary, end_head in the last block
+#   brim    descriptive fields fill the header so that end_head's newline is the very last byte of the declared size
+SPH_LAYOUTS = {
+    "1024": (1024, "short"),
+    "pad2048": (2048, "short"),
+    "pad4096": (4096, "short"),
+    "late2048": (2048, "late"),
+    "late3072": (3072, "late"),
+    "split2048": (2048, "split"),
+    "split3072": (3072, "split"),
+    "brim2048": (2048, "brim"),
+    "brim1024": (1024, "brim"),
+}
+
+
+def _sph_note(idx: int, total: int) -> bytes:
+    """A descriptive string field of exactly `total` bytes including its newline."""
+    head = "note_%02d -s" % idx
+    for k in range(1, 400):
+        ln = ("%s%d %s\n" % (head, k, "abcdefghij"[idx % 10] * k)).encode()
+        if len(ln) == total:
+            return ln
+    raise ValueError("no descriptive line of %d bytes" % total)
+
+
+def _sph_fill(buf: bytes, target: int, idx: int):
+    """Append descriptive lines until len(buf) == target. -> (buf, next idx)"""
+    while len(buf) < target:
+        gap = target - len(buf)
+        assert gap >= 14, gap
+        take = 48 if gap >= 96 else (gap if gap < 62 else gap - 24)
+        buf += _sph_note(idx, take)
+        idx += 1
+    return buf, idx
+
+
+def sph_bytes(arr: np.ndarray, order: str, layout: str = "1024") -> bytes:
     a2 = arr.reshape(arr.shape[0], 1 if arr.ndim == 1 else arr.shape[1])
-    lines = ["NIST_1A", "   1024", "channel_count -i %d" % a2.shape[1], "sample_count -i %d" % a2.shape[0],
-             "sample_rate -i 8000", "sample_n_bytes -i 2", "sample_byte_format -s2 %s" % order,
-             "sample_coding -s3 pcm", "end_head"]
-    h = ("\n".join(lines) + "\n").encode().ljust(1024, b" ")
-    return h + a2.astype("<i2" if order == "01" else ">i2").tobytes()
+    hdr, lay = SPH_LAYOUTS[layout]
+    fields = [("channel_count -i %d" % a2.shape[1]), ("sample_count -i %d" % a2.shape[0]), "sample_rate -i 8000", "sample_n_bytes -i 2",
+              "sample_byte_format -s2 %s" % order, "sample_coding -s3 pcm"]
+    fields = [(f + "\n").encode() for f in fields]
+    buf = ("NIST_1A\n%7d\n" % hdr).encode()
+    tail = b"".join(fields) + b"end_head\n"
+    if lay == "short":
+        buf += tail
+    elif lay == "late":
+        # database_id etc. as in the LDC corpora, then notes up to a few bytes into the last block
+        buf += b"database_id -s8 TIDIGITS\nutterance_id -s9 dd_1233_a\nspeaker_id -s2 dd\nsample_min -i -2677\nsample_max -i 2234\n"
+        buf, _ = _sph_fill(buf, hdr - 1024 + 20 + len(fields[1]) % 7, 0)
+        buf += tail
+    elif lay == "split":
+        # a sample field, descriptive lines, a sample field, ...: positions chosen so that a line straddles every boundary
+        stops = [hdr * (j + 1) // 7 for j in range(6)]
+        idx = 0
+        for f, stop in zip(fields, stops):
+            for b in range(1024, hdr, 1024):
+                if len(buf) < b - 40 <= stop:  # stop 17 bytes short of the boundary; the next line crosses it
+                    buf, idx = _sph_fill(buf, b - 17, idx)
+                    buf += _sph_note(idx, 40)
+                    idx += 1
+            if stop - len(buf) >= 14:
+                buf, idx = _sph_fill(buf, stop, idx)
+            buf += f
+        buf += b"end_head\n"
+    elif lay == "brim":
+        buf += b"".join(fields[:3])
+        buf, _ = _sph_fill(buf, hdr - len(b"".join(fields[3:])) - 9, 0)
+        buf += b"".join(fields[3:]) + b"end_head\n"
+        assert len(buf) == hdr
+    else:
+        raise ValueError(lay)
+    assert len(buf) <= hdr, (len(buf), hdr)
+    return buf.ljust(hdr, b" ") + a2.astype("<i2" if order == "01" else ">i2").tobytes()
 
 
 def sph_own_read(blob: bytes):
+    """Own reader: size from the second line, fields up to end_head anywhere in the header, samples after the header."""
+    hdr = int(blob[:1024].split(b"\n")[1])
     fields = {}
-    for ln in blob[:1024].split(b"\n")[2:]:
+    lines = blob[:hdr].split(b"\n")[2:]
+    assert b"end_head" in lines
+    for ln in lines:
         if ln == b"end_head":
             break
         parts = ln.decode().split()
         fields[parts[0]] = parts[2]
     c, n = int(fields["channel_count"]), int(fields["sample_count"])
     dt = "<i2" if fields["sample_byte_format"] == "01" else ">i2"
-    x = np.frombuffer(blob[1024:], dtype=dt).astype(np.int16)
+    x = np.frombuffer(blob[hdr:], dtype=dt).astype(np.int16)
     return x.reshape(n) if c == 1 else x.reshape(n, c)
+
+
+def sph_describe(cont, blob: bytes) -> str:
+    """For messages: how the SPHERE file at hand is framed."""
+    if not cont.name.startswith("sph"):
+        return ""
+    try:
+        return " (valid SPHERE file: header of %d bytes, first sample field at byte %d, end_head line ends at byte %d)" % sph_layout_facts(blob)
+    except Exception:  # noqa
+        return ""
+
+
+def sph_layout_facts(blob: bytes):
+    """(declared header size, offset of the first sample-describing field, offset of the end of end_head's line)"""
+    hdr = int(blob[:1024].split(b"\n")[1])
+    first = min(blob.index(b"\n" + k) + 1 for k in (b"channel_count", b"sample_count", b"sample_rate", b"sample_n_bytes", b"sample_byte_format", b"sample_coding"))
+    return hdr, first, blob.index(b"\nend_head\n") + 10
 
 
 # ----------------------------------------------------------------------------------------------
@@ -122,7 +226,8 @@ def hdf5_paths(layout, prefix=""):
 
 class Container:
     def __init__(self, name, suffix, stream_force, sdtypes, audio=False, one_d_only=False, keyed=False, variant=None,
-                 extra_path_force=(), needs_dtype=False, min_len=0):
+                 extra_path_force=(), needs_dtype=False, min_len=0, sph_layout="1024"):
+        self.sph_layout = sph_layout
         self.name, self.suffix, self.stream_force = name, suffix, tuple(stream_force)
         self.sdtypes, self.audio, self.one_d_only, self.keyed = tuple(sdtypes), audio, one_d_only, keyed
         self.variant, self.extra_path_force, self.needs_dtype, self.min_len = variant, tuple(extra_path_force), needs_dtype, min_len
@@ -146,6 +251,15 @@ CONTAINERS = [
     Container("raw", ".raw", ("file",), ("int16", "float32", "int32", "float64", "uint8"), one_d_only=True, needs_dtype=True),
     Container("sph01", ".sph", ("sph",), ("int16",), audio=True, variant="01", min_len=1),
     Container("sph10", ".sph", ("sph",), ("int16",), audio=True, variant="10", min_len=1),
+    # the same arrays in valid SPHERE framings other than the minimal one (see SPH_LAYOUTS)
+    Container("sph10_late2048", ".sph", ("sph",), ("int16",), audio=True, variant="10", min_len=1, sph_layout="late2048"),
+    Container("sph01_late3072", ".sph", ("sph",), ("int16",), audio=True, variant="01", min_len=1, sph_layout="late3072"),
+    Container("sph01_split2048", ".sph", ("sph",), ("int16",), audio=True, variant="01", min_len=1, sph_layout="split2048"),
+    Container("sph10_split3072", ".sph", ("sph",), ("int16",), audio=True, variant="10", min_len=1, sph_layout="split3072"),
+    Container("sph01_pad2048", ".sph", ("sph",), ("int16",), audio=True, variant="01", min_len=1, sph_layout="pad2048"),
+    Container("sph10_pad4096", ".sph", ("sph",), ("int16",), audio=True, variant="10", min_len=1, sph_layout="pad4096"),
+    Container("sph10_brim2048", ".sph", ("sph",), ("int16",), audio=True, variant="10", min_len=1, sph_layout="brim2048"),
+    Container("sph01_brim1024", ".sph", ("sph",), ("int16",), audio=True, variant="01", min_len=1, sph_layout="brim1024"),
 ]
 CONT = {c.name: c for c in CONTAINERS}
 
@@ -239,7 +353,7 @@ def write_container(cont: Container, path: str, arrs: dict):
         A.tofile(path)
         return True
     if n.startswith("sph"):
-        blob = sph_bytes(A, cont.variant)
+        blob = sph_bytes(A, cont.variant, cont.sph_layout)
         with open(path, "wb") as f:
             f.write(blob)
         back = sph_own_read(blob)
@@ -336,8 +450,8 @@ def check_roundtrip(case, tmpdir, util, prepared=None):
     try:
         out = do_read(util, case, path, blob)
     except Exception as e:  # noqa
-        return [(clause, "raised %s: %s" % (type(e).__name__, e))]
-    return compare(out, exp, clause)
+        return [(clause, "raised %s: %s%s" % (type(e).__name__, e, sph_describe(cont, blob)))]
+    return [(c, m + sph_describe(cont, blob)) for c, m in compare(out, exp, clause)]
 
 
 # ----------------------------------------------------------------------------------------------
@@ -431,11 +545,11 @@ def check_offset(case, tmpdir, util, prepared=None):
             else:
                 raise ValueError(case["via"])
     except Exception as e:  # noqa
-        return [(clause, "stream positioned at byte %d of %d: raised %s: %s" % (off, len(blob), type(e).__name__, e))]
+        return [(clause, "stream positioned at byte %d of %d: raised %s: %s%s" % (off, len(blob), type(e).__name__, e, sph_describe(cont, blob[off:])))]
     finally:
         if path is not None and os.path.exists(path):
             os.remove(path)
-    return [(c, "stream positioned at byte %d of %d: %s" % (off, len(blob), m)) for c, m in compare(out, exp, clause)]
+    return [(c, "stream positioned at byte %d of %d: %s%s" % (off, len(blob), m, sph_describe(cont, blob[off:]))) for c, m in compare(out, exp, clause)]
 
 
 def enumerate_offsets(tier, seed):
@@ -538,7 +652,8 @@ def check_error(case, tmpdir, util):
 # ----------------------------------------------------------------------------------------------
 # wds_read_signal
 # ----------------------------------------------------------------------------------------------
-WDS_CONTAINERS = ("wav_sf16", "wav_wave32", "flac16", "aiff16", "npy", "npz", "pt", "hdf5_nested", "hdf5_flat", "sph01", "sph10")
+WDS_CONTAINERS = ("wav_sf16", "wav_wave32", "flac16", "aiff16", "npy", "npz", "pt", "hdf5_nested", "hdf5_flat", "sph01", "sph10",
+                  "sph10_late2048", "sph01_late3072", "sph01_split2048", "sph10_brim2048")
 WDS_SUFFIXES = ("wav", "flac", "aiff", "ogg", "npy", "npz", "pt", "hdf5", "sph", "txt", "", "file", "raw", "json")
 MAGICS = {
     "riff": b"RIFF\x24\x08\x00\x00WAVEfmt \x10\x00\x00\x00\x01\x00\x01\x00\x40\x1f\x00\x00\x80\x3e\x00\x00\x02\x00\x10\x00data\x00\x08\x00\x00",
@@ -605,8 +720,8 @@ def check_wds(case, tmpdir, util):
             return [("C11.wds_never_raises", "raised %s: %s" % (type(val).__name__, val))]
         exp = arrs[dict(key_table(cont))[None]]
         if val is None:
-            return [("C11.wds_valid", "returned None for valid %s bytes under key %r" % (cont.name, key))]
-        return compare(val, exp, "C11.wds_valid")
+            return [("C11.wds_valid", "returned None for valid %s bytes under key %r%s" % (cont.name, key, sph_describe(cont, blob)))]
+        return [(c, m + sph_describe(cont, blob)) for c, m in compare(val, exp, "C11.wds_valid")]
     must_be_none = False
     if sub == "random":
         rng = _common.make_rng(case["seed"], "c11wds:%d" % case["length"])
@@ -824,8 +939,14 @@ def run(tier: str, seed: int) -> dict:
         per[case["kind"] + case.get("sub", "")] = per.get(case["kind"] + case.get("sub", ""), 0) + 1
         per[k] = per.get(k, 0) + 1
         for clause, msg in fails:
-            col.fail(clause, case, msg)
+            # at most 2 recorded failures per (clause, container / sub-kind), so that one defect seen through the first clause in the
+            # plan does not use up the failure cap before the other access paths are reached; the others are tallied in a note
+            fk = (clause, case.get("container", case.get("sub")))
+            seen[fk] = seen.get(fk, 0) + 1
+            if seen[fk] <= 2:
+                col.fail(clause, case, msg)
 
+    seen = {}
     try:
         # interleave: error clauses and wds first 400 singles are cheap -> run the structured singles first
         singles = enumerate_singles(tier, seed)
@@ -888,6 +1009,9 @@ def run(tier: str, seed: int) -> dict:
                      "exceptions), e.g. %s" % (len(ODD_RETURNS), ODD_RETURNS[:3]))
     finally:
         shutil.rmtree(tmpdir, ignore_errors=True)
+    more = {k: v - 2 for k, v in seen.items() if v > 2}
+    if more:
+        col.note("further failing cases not listed (only 2 per clause and container are recorded): " + ", ".join("%s/%s=%d" % (k[0], k[1], v) for k, v in sorted(more.items(), key=str)))
     col.note("cases: " + ", ".join("%s=%d" % kv for kv in sorted(per.items()) if ":" not in kv[0]))
     col.note("round-trip cases per container: " + ", ".join("%s=%d" % (k.split(":")[1], v) for k, v in sorted(per.items()) if k.startswith("roundtrip:")))
     col.note("stream-position cases per container: " + ", ".join("%s=%d" % (k.split(":")[1], v) for k, v in sorted(per.items()) if k.startswith("offset:")))
@@ -896,16 +1020,25 @@ def run(tier: str, seed: int) -> dict:
              "stream through unchanged, i.e. these two containers need a stream that starts at the payload. npz works at an offset only because zipfile locates the archive "
              "from the END of the stream (the payload under test is always the last thing in the stream); raw reads to EOF, so the expected value is the second payload only" % (
                  ", ".join(OFFSET_UNSUPPORTED),))
+    facts = []
+    for c in CONTAINERS:
+        if c.name.startswith("sph"):
+            hdr, first, end = sph_layout_facts(sph_bytes(make_array("int16", (64, 3), "full", seed, "facts"), c.variant, c.sph_layout))
+            facts.append("%s: header %d, first sample field at byte %d, end_head line ends at byte %d" % (c.name, hdr, first, end))
+    col.note("SPHERE framings (each read by name, from an open file, from a BytesIO, at a stream offset behind another SPHERE payload / junk, and -- four of "
+             "the long ones -- through wds_read_signal, incl. truncated / bit-flipped): " + "; ".join(facts))
     col.note("shapes skipped because the container's own reader cannot give them back: %s; SPHERE (0,) skipped (a zero sample_count is rejected as a missing field, see C12); "
              "raw holds 1-d only and needs dtype to interpret the bytes; np.fromfile needs a real file object, so raw has no BytesIO path; "
              "bit-flipped HDF5 bytes are not fed to wds_read_signal (libhdf5 may abort the process)" % (sorted(set(skipped)) or "none"))
     return col.result(
         rule="one case = one read_signal / wds_read_signal call on a file written here with the container's own writer (or on crafted bytes / names for the "
              "error and wds clauses); a round-trip case is non-trivial when the expected array is non-empty, every error / wds case counts",
-        bound="17 container variants (wav 16/32 by soundfile and by wave, flac16, aiff16, npy, npz plain/compressed 3 entries, pt, hdf5 in 4 group layouts, raw, "
-              "sph both byte orders) x shapes {(0,),(1,),(7,),(100,),(5,2),(64,3)} + %d seeded random shapes x stored dtypes x {name, name+force_as, open file, BytesIO} x "
-              "dtype {None,f32,f64,i16 (in-range data)} x every key; streams positioned off byte 0: 12 container variants (all but flac/hdf5) x shapes {(9,3),(12,),(1,)} x "
-              "{after another payload of the same family, after 1..1024 junk bytes} x {open file, BytesIO} x force_as x dtype {None,f64} x every key; 19 suffix-less names, 12 unknown force_as; wds: valid bytes of 11 containers x 3 key styles, "
+        bound="25 container variants (wav 16/32 by soundfile and by wave, flac16, aiff16, npy, npz plain/compressed 3 entries, pt, hdf5 in 4 group layouts, raw, "
+              "sph both byte orders with the minimal 1024-byte header + 8 other valid SPHERE framings: headers of 2048 / 3072 bytes whose sample fields all lie in "
+              "the last 1024-byte block behind descriptive fields, or are spread over all blocks with a line straddling each block boundary, headers of 2048 / 4096 "
+              "bytes that are merely padded, headers of 1024 / 2048 bytes filled to the last byte by end_head) x shapes {(0,),(1,),(7,),(100,),(5,2),(64,3)} + %d seeded random shapes x stored dtypes x {name, name+force_as, open file, BytesIO} x "
+              "dtype {None,f32,f64,i16 (in-range data)} x every key; streams positioned off byte 0: 20 container variants (all but flac/hdf5) x shapes {(9,3),(12,),(1,)} x "
+              "{after another payload of the same family, after 1..1024 junk bytes} x {open file, BytesIO} x force_as x dtype {None,f64} x every key; 19 suffix-less names, 12 unknown force_as; wds: valid bytes of 15 containers (4 of them SPHERE with a long header) x 3 key styles, "
               "%s random byte strings x %d suffixes, 13 magic prefixes + garbage, 12 truncations and bit flips of each valid file" % (
                   2 if tier == "quick" else 16, "300" if tier == "quick" else "1500", 9 if tier == "quick" else len(WDS_SUFFIXES)),
         assumptions=["A-IO-CONTAINER", "A-IO-STREAM"],
